@@ -38,7 +38,16 @@ def run(ctx):
         ("schema.dict({'k': schema.list([..., schema.int(1), schema.int(2), ...])})", {"k": [1, 1, 2]}),
         ("schema.list([..., schema.int(1), schema.int(2)])", [1, 2, 1, 2]),
         ("schema.list([schema.int(1), schema.int(2), ...])", [1, 2, 1, 2]),
+        # a length RANGE that the pinned elements already meet: nothing may be added when generating
+        ("schema.list(schema.int).len(1, 3)", [1, 2]), ("schema.list.len(..., 4)", [1]), ("schema.list(schema.str).len(2, ...)", ["a", "b"]),
+        ("schema.list([schema.int, ...]).len(1, 3)", [1]), ("schema.list([..., schema.int]).len(1, 3)", [1]),
+        ("schema.dict({'k': schema.list(schema.int).len(..., 5)})", {"k": [1, 2]}), ("schema.list.len(0, 2)", []),
     ]
+    # the property says "plain value (no ... placeholders)": the hostile zoo at every position converted by
+    # from_native belongs to it (tuples, sets, subclass instances ...); where substitution succeeds the oracle applies
+    for c in ssuite.make_cases(ctx, 0, depth, plain_only=False):
+        if c.origin in ("zoo-grid",) and not ssuite.has_placeholder(c.value):
+            cases.append(c)
     for ssrc, v in directed:
         c = ssuite.SCase()
         c.ssrc, c.schema, c.value, c.origin, c.unmodelled = ssrc, gen.build(ssrc), v, "directed", None
@@ -85,8 +94,6 @@ def run(ctx):
                 a2 = ssuite.accepts(c.result, w)
             except Exception:  # noqa
                 continue
-            if origin == "generated" and not a2:
-                continue      # generator soundness is C01's concern
             if (a2 or origin == "generated") and not pyspec.carries(v, w, precs, anchors) and not nan:
                 rp = c.replay_dict()
                 rp.update(w=gen.vsrc(w), observed=f"S % v {'generates' if origin == 'generated' else 'accepts'} w, "
